@@ -112,7 +112,8 @@ def run(chk):
     for name, res in vf.run_translators(which=["turn", "units", "cost"]).items():
         if not res.get("ok", False):
             vf.log("translator %s: %s (owned by another check; its previous output is used)" % (name, res.get("msg")))
-    chk.proofs(extra_targets=["Model/ReachRun.vo", "Model/E2ERun.vo"])
+    # Props/Termination.v: termination of the re-opening loop with an explicit fuel bound (makes c05_answer_iff total)
+    chk.proofs(extra_targets=["Model/ReachRun.vo", "Model/E2ERun.vo"], extra_props=["Props/Termination.v"])
     if replay_stream(chk) == "app_reach":
         run_app_stream(chk)
         return finish(chk)
